@@ -936,14 +936,14 @@ package main
 // ---- C15 / C08 / C05 / C07: the SQL text (SQL engines are trusted; what they are asked is pinned here) ----------
 // profiles and signed records are looked up, replaced and deleted by exact user name (and record type); the cache
 // schema keeps one profile per user and one signed record per user and type
-//@ initvalues loadUserProfileStmt all `^select profile_data from user_profile where username = (\?|\$1)$`   #C15.profile-looked-up-by-exact-name @C15,C08,C05
-//@ initvalues deleteUserProfileStmt all `^delete from +user_profile where username = (\?|\$1)$`   #C15.profile-deleted-by-exact-name @C15,C08
-//@ initvalues saveUserProfileStmt all `^insert (or replace )?into user_profile\(username, profile_data\) values ?\((\?, \?|\$1,\$2)\)( on CONFLICT\(username\) DO UPDATE set +profile_data = excluded\.profile_data)?$`   #C15.profile-replaced-by-exact-name @C15,C08
-//@ initvalues getSignedUserDataStmt all `^select jws_data from expiring_signed_user_data where username = (\?|\$1) and type ?= ?(\?|\$2) and expiration_epoch > (\?|\$3)$`   #C15.record-looked-up-by-exact-name-and-type @C15,C07
-//@ initvalues deleteSignedUserDataStmt all `^delete from expiring_signed_user_data where username = (\?|\$1) and type = (\?|\$2)$`   #C15.record-deleted-by-exact-name-and-type @C15,C07
-//@ initvalues saveSignedUserDataStmt all `^insert (or replace )?into expiring_signed_user_data\(username, type, jws_data, expiration_epoch, update_epoch\) values ?\((\?,\?, \?, \?, \?|\$1,\$2,\$3,\$4, \$5)\)( ON CONFLICT\(username,type\) DO UPDATE SET +jws_data = excluded\.jws_data, expiration_epoch = excluded\.expiration_epoch)?$`   #C15.record-replaced-by-exact-name-and-type @C15,C07
-//@ initvalues sqliteinitializationStatements some `expiring_signed_user_data\(.*UNIQUE\(username,type\)`   #C15.one-signed-record-per-user-and-type @C15,C07
-//@ initvalues sqliteinitializationStatements some `user_profile \(.*username text unique`   #C15.one-profile-per-user @C15,C08
+//@ initvalues loadUserProfileStmt all `(?i)^\s*select\s+profile_data\s+from\s+user_profile\s+where\s+username\s*=\s*(\?|\$1)\s*;?\s*$`   #C15.profile-looked-up-by-exact-name @C15,C08,C05
+//@ initvalues deleteUserProfileStmt all `(?i)^\s*delete\s+from\s+user_profile\s+where\s+username\s*=\s*(\?|\$1)\s*;?\s*$`   #C15.profile-deleted-by-exact-name @C15,C08
+//@ initvalues saveUserProfileStmt all `(?i)^\s*insert\s+(or\s+replace\s+)?into\s+user_profile\s*\(\s*username\s*,\s*profile_data\s*\)\s*values\s*\(\s*(\?\s*,\s*\?|\$1\s*,\s*\$2)\s*\)(\s+on\s+conflict\s*\(\s*username\s*\)\s*do\s+update\s+set\s+profile_data\s*=\s*excluded\.profile_data)?\s*;?\s*$`   #C15.profile-replaced-by-exact-name @C15,C08
+//@ initvalues getSignedUserDataStmt all `(?i)^\s*select\s+jws_data\s+from\s+expiring_signed_user_data\s+where\s+username\s*=\s*(\?|\$1)\s+and\s+type\s*=\s*(\?|\$2)\s+and\s+expiration_epoch\s*>\s*(\?|\$3)\s*;?\s*$`   #C15.record-looked-up-by-exact-name-and-type @C15,C07
+//@ initvalues deleteSignedUserDataStmt all `(?i)^\s*delete\s+from\s+expiring_signed_user_data\s+where\s+username\s*=\s*(\?|\$1)\s+and\s+type\s*=\s*(\?|\$2)\s*;?\s*$`   #C15.record-deleted-by-exact-name-and-type @C15,C07
+//@ initvalues saveSignedUserDataStmt all `(?i)^\s*insert\s+(or\s+replace\s+)?into\s+expiring_signed_user_data\s*\(\s*username\s*,\s*type\s*,\s*jws_data\s*,\s*expiration_epoch\s*,\s*update_epoch\s*\)\s*values\s*\(\s*(\?\s*,\s*\?\s*,\s*\?\s*,\s*\?\s*,\s*\?|\$1\s*,\s*\$2\s*,\s*\$3\s*,\s*\$4\s*,\s*\$5)\s*\)(\s+on\s+conflict\s*\(\s*username\s*,\s*type\s*\)\s*do\s+update\s+set\s+jws_data\s*=\s*excluded\.jws_data\s*,\s*expiration_epoch\s*=\s*excluded\.expiration_epoch)?\s*;?\s*$`   #C15.record-replaced-by-exact-name-and-type @C15,C07
+//@ initvalues sqliteinitializationStatements some `(?is)expiring_signed_user_data\s*\(.*unique\s*\(\s*username\s*,\s*type\s*\)`   #C15.one-signed-record-per-user-and-type @C15,C07
+//@ initvalues sqliteinitializationStatements some `(?is)user_profile\s*\(.*username\s+text\s+(not\s+null\s+)?unique`   #C15.one-profile-per-user @C15,C08
 
 // ---- C13 / C12 / C14: the configuration keys the properties speak about are the ones the decoder reads -----------
 // (yaml.Unmarshal ignores unknown keys: a mistyped tag silently leaves the field empty)
